@@ -1469,7 +1469,8 @@ def _nth_iindexed(coll: IIndexed, i: int, notfound=IIndexed.NTH_SENTINEL):
 
 @nth.register(ISeq)
 def _nth_iseq(coll: ISeq, i: int, notfound=IIndexed.NTH_SENTINEL):
-    for j, e in enumerate(coll):
+    # a negative index is never found: do not walk (and realize) the entire seq for it
+    for j, e in enumerate(coll if i >= 0 else ()):
         if i == j:
             return e
 
